@@ -269,6 +269,29 @@ fn run_ctx<Ctx: Cx>(rep: &Report, ctxname: &'static str, n: usize, alpha: Alphab
     (cen, te.count() as u64, te.attempted)
 }
 
+/// The context's own statement of which fragments are malleable for lack of MINIMALIF: or_i and d:
+/// in the pre-segwit contexts, nothing elsewhere. (The execution side of this is the `d`/`e`
+/// behaviour of IF-based fragments under standard vs consensus flags measured above.)
+fn minimalif_rule<Ctx: Cx>(rep: &Report, ctxname: &'static str, n: usize, tap: bool, pre_segwit: bool) -> Census {
+    use miniscript::ScriptContext;
+    let mut cen = Census::new();
+    let te = explore_terms::<Ctx>(n, Alphabet::Small, tap);
+    for m in te.all() {
+        bump(&mut cen, "minimalif_rule_checks");
+        let expect_err = pre_segwit && matches!(m.node, miniscript::Terminal::OrI(..) | miniscript::Terminal::DupIf(..));
+        let got = Ctx::check_terminal_non_malleable(&m.node).is_err();
+        if got != expect_err {
+            rep.violation(Violation {
+                key: format!("C06|minimalif-rule|{}|{}", ctxname, m),
+                class: format!("context-minimalif-rule-{}", ctxname),
+                what: format!("check_terminal_non_malleable({}) is_err = {} in context {}, expected {}", m, got, ctxname, expect_err),
+                case: json!({"ctx": ctxname, "fragment": m.to_string()}),
+            });
+        }
+    }
+    cen
+}
+
 pub fn run(tier: Tier) -> i32 {
     let rep = Report::new("C06", tier);
     match crate::kat::run_kats() {
@@ -294,6 +317,10 @@ pub fn run(tier: Tier) -> i32 {
         states += s;
         transitions += t;
     }
+    rep.merge_counts(&minimalif_rule::<Segwitv0>(&rep, "segwitv0", n - 1, false, false));
+    rep.merge_counts(&minimalif_rule::<Tap>(&rep, "tap", n - 1, true, false));
+    rep.merge_counts(&minimalif_rule::<Legacy>(&rep, "legacy", n - 1, false, true));
+    rep.merge_counts(&minimalif_rule::<miniscript::BareCtx>(&rep, "bare", n - 1, false, true));
     rep.sample(json!({"alphabet": "[], [1], [2], 0^32, 1^32, 33 junk bytes, every key, every key's valid signature, one non-verifying signature, every preimage; W fragments get a sentinel on top"}));
     rep.sample(json!({"labels": "z o n (all paths), u s (consensus), d f e (standard), base shape B/V/W; K judged through c:K"}));
     rep.assume("fragment executed alone on the RSM with a lazily materialised input stack; transaction (nLockTime=10,nSequence=5) and (0,0xffffffff)");
